@@ -95,6 +95,18 @@ def c03_2(ctx, ss, rule="C03.2"):
             ctx.holds(rule, k, where(ff, c), "the tree conjugated in place is a copy.deepcopy of the source table", 2)
         else:
             ctx.violation(rule, k, where(ff, c), f"the tree conjugated in place is not a deep copy ({r[0]} {r[1]}): the SOURCE table (or shared decay lines) is rewritten")
+    # one deep copy PER source tree: a single deepcopy of the whole list keeps the aliasing between its entries, so a source
+    # that is listed twice (the same CDecay stated twice, two ChargeConj pairs naming one source) yields ONE copy, conjugated twice
+    for dc_ in [c for c in pf.calls_in(ff.node) if txt(c.func) in ("copy.deepcopy", "deepcopy") and c.args]:
+        a_ = flow.expand(dc_.args[0])
+        per_elem = isinstance(a_, ast.Call) and txt(a_.func) == "__elem__"
+        single = isinstance(a_, ast.Subscript)           # one tree picked by position
+        k_ = ckey(ff, None, "copy-per-tree")
+        if per_elem or single:
+            ctx.holds(rule, k_, where(ff, dc_), "each source tree is deep-copied on its own", 1)
+        else:
+            ctx.violation(rule, k_, where(ff, dc_), f"`{txt(dc_)[:70]}` copies the whole collection at once: entries that name the same source table stay one object, "
+                          "which is then conjugated once per entry (conjugated back), and the created tables share state")
     ext = [c for c in pf.calls_in(ff.node) if isinstance(c.func, ast.Attribute) and c.func.attr in ("extend", "append")
            and txt(c.func.value) == "self._parsed_decays"]
     if not ext:
